@@ -180,6 +180,31 @@ pub fn rtx_after_fast_recovery(tier: Tier, depth: usize) -> Driver {
     d
 }
 
+/// A long recovery: five segments in flight, fast retransmit, more data written and sent *during* the
+/// recovery, then an ACK that goes beyond the recovery point and ends it.
+pub fn rtx_after_long_recovery(tier: Tier, depth: usize) -> Driver {
+    let mut d = rtx(tier, 5, true, depth);
+    let def = WndSpec::Default;
+    d.name = "rtx-after-long-recovery".into();
+    d.prefix.push(state(AckSpec::Cur, def, SackSpec::None));
+    d.prefix.push(state(AckSpec::Cur, def, SackSpec::None));
+    d.prefix.push(state(AckSpec::Cur, def, SackSpec::None));
+    d.prefix.push(Act::Write(3 * MSS));
+    // partial ACKs: each one retransmits the next hole and, as the pipe drains, releases new data
+    d.prefix.push(state(AckSpec::Plus(1), def, SackSpec::None));
+    d.prefix.push(state(AckSpec::Plus(1), def, SackSpec::None));
+    d.prefix.push(state(AckSpec::Plus(1), def, SackSpec::None));
+    d.prefix.push(state(AckSpec::All, def, SackSpec::None));
+    d.alphabet = vec![
+        state(AckSpec::Cur, def, SackSpec::None),
+        state(AckSpec::Plus(1), def, SackSpec::None),
+        state(AckSpec::All, def, SackSpec::None),
+        Act::Write(3 * MSS),
+        Act::Tick,
+    ];
+    d
+}
+
 /// Acknowledgements that ride on the peer's own data and FIN packets (in order, ahead of a gap,
 /// duplicate) instead of on ST_STATE.
 pub fn rtx_piggyback(tier: Tier, depth: usize) -> Driver {
@@ -614,6 +639,7 @@ pub fn all_drivers(tier: Tier) -> Vec<Driver> {
     v.push(rtx_after_recovery_rto(tier, 7));
     v.push(rtx_piggyback(tier, 6));
     v.push(rtx_after_fast_recovery(tier, 6));
+    v.push(rtx_after_long_recovery(tier, 5));
     v.push(nagle_recovery(tier, 6));
     v.push(tx_slowstart(tier, 6));
     v.push(tx_window_mtu(tier, 6));
